@@ -94,6 +94,8 @@ def collide_variants(sc, res):
 def to_monitor(sc, res):
     evs = []
     for e in res["trace"]:
+        if e["ev"] == "Visit":
+            continue        # mechanism-level event (MapUnorderedTrace), not part of the reference monitor's alphabet
         ev = dict(ev=e["ev"], f=e.get("f", 0), i=e.get("i", 0), b=bool(e.get("backup", False)), ok=bool(e.get("ok", False)))
         if e["ev"] == "Raise":
             ev["ok"] = e["kind"] == "injected"
@@ -106,7 +108,7 @@ def to_monitor(sc, res):
 
 def signature(res):
     """Abstract shape of a run: used to count distinct behaviours."""
-    return tuple((e["ev"], e.get("backup", None), e.get("ok", None)) for e in res["trace"] if e["ev"] != "Attempt")
+    return tuple((e["ev"], e.get("backup", None), e.get("ok", None)) for e in res["trace"] if e["ev"] not in ("Attempt", "Visit"))
 
 
 def run(chk):
